@@ -1,0 +1,162 @@
+//go:build verif
+
+// Contracts checked by /verif/gvc (contract-based deductive verification).
+// This file contains comments only; it is compiled only under the "verif" build tag.
+
+package mem
+
+// C02 / C11 — the subscription trie and its index (memory backend).
+//
+// Every node has its three maps; a child's parent pointer points back (nodesOK). member(n, g, c): client c has a
+// shared subscription of group g at node n. bare(n): the node holds no subscription of either kind and has no child.
+
+//@ spec func nodesOK() bool = (forall n *topicNode :: live(n) ==> n.children != nil && n.clients != nil && n.shared != nil) && (forall n *topicNode, k string :: live(n) && has(n.children, k) ==> n.children[k] != nil && n.children[k].parent == n) && (forall n *topicNode, g string :: live(n) && has(n.shared, g) ==> n.shared[g] != nil)
+// ownsOK: no two nodes share a map, and no two (node, group) pairs share a member map (every map is made for its node).
+//@ spec func ownsOK() bool = (forall n *topicNode, m *topicNode :: live(n) && live(m) && n != m ==> n.clients != m.clients && n.children != m.children && n.shared != m.shared) && (forall n *topicNode, m *topicNode, g string :: live(n) && live(m) && has(m.shared, g) ==> n.clients != m.shared[g]) && (forall n *topicNode, g string, m *topicNode, h string :: live(n) && live(m) && has(n.shared, g) && has(m.shared, h) && (n != m || g != h) ==> n.shared[g] != m.shared[h])
+//@ spec func member(n *topicNode, g string, c string) bool = has(n.shared, g) && has(n.shared[g], c)
+//@ spec func bare(n *topicNode) bool = (forall c string :: !has(n.clients, c)) && (forall g string :: !has(n.shared, g)) && (forall k string :: !has(n.children, k))
+
+//@ func newNode inline
+//@ func (*topicNode).newChild inline
+//@ func isSystemTopic inline
+
+// subscribe: the subscription is installed at the node it returns — in clients (non-shared) or in the group's member
+// map (shared) —, the node carries the filter as its name, no other entry of any node changes, no link is removed.
+//@ func (*topicTrie).subscribe
+//@ props C02 C11
+//@ requires [C02] t != nil && s != nil && nodesOK() && ownsOK()
+//@ modifies heap
+//@ ensures [C02] result != nil && nodesOK() && ownsOK() && result.topicName == s.TopicFilter
+//@ ensures [C02] s.ShareName == "" ==> has(result.clients, clientID) && result.clients[clientID] == s
+//@ ensures [C11] s.ShareName != "" ==> member(result, s.ShareName, clientID) && result.shared[s.ShareName][clientID] == s
+//@ ensures [C02] forall n *topicNode, c string :: live(n) && !isfresh(n) && !(n == result && c == clientID && s.ShareName == "") ==> has(n.clients, c) == old(has(n.clients, c)) && n.clients[c] == old(n.clients[c])
+//@ ensures [C11] forall n *topicNode, g string, c string :: live(n) && !isfresh(n) && !(n == result && g == s.ShareName && c == clientID && s.ShareName != "") ==> member(n, g, c) == old(member(n, g, c))
+//@ ensures [C02] forall n *topicNode, k string :: live(n) && !isfresh(n) && old(has(n.children, k)) ==> has(n.children, k) && n.children[k] == old(n.children[k])
+//@ loop 1 invariant pNode != nil && nodesOK() && ownsOK()
+//@ loop 1 invariant forall n *topicNode, c string :: live(n) && !isfresh(n) ==> has(n.clients, c) == old(has(n.clients, c)) && n.clients[c] == old(n.clients[c])
+//@ loop 1 invariant forall n *topicNode, g string, c string :: live(n) && !isfresh(n) ==> member(n, g, c) == old(member(n, g, c))
+//@ loop 1 invariant forall n *topicNode, k string :: live(n) && !isfresh(n) && old(has(n.children, k)) ==> has(n.children, k) && n.children[k] == old(n.children[k])
+
+// unsubscribe: removes at most the named entry of the named client; every other entry of every node stays; a node is
+// unlinked from its parent only when it is bare.
+//@ func (*topicTrie).unsubscribe
+//@ props C02 C11
+//@ requires [C02] t != nil && nodesOK() && ownsOK()
+//@ modifies heap
+//@ ensures [C02] nodesOK() && ownsOK()
+//@ ensures [C02] forall n *topicNode, c string :: live(n) && (c != clientID || shareName != "") ==> has(n.clients, c) == old(has(n.clients, c)) && n.clients[c] == old(n.clients[c])
+//@ ensures [C02] forall n *topicNode :: live(n) && has(n.clients, clientID) ==> old(has(n.clients, clientID))
+//@ ensures [C11] forall n *topicNode, g string, c string :: live(n) && (c != clientID || g != shareName || shareName == "") ==> member(n, g, c) == old(member(n, g, c))
+//@ ensures [C11] forall n *topicNode, g string :: live(n) && member(n, g, clientID) ==> old(member(n, g, clientID))
+// (TrieDB keeps shared and non-shared subscriptions in different tries, so a node never holds both kinds: the node
+// that is unlinked has no child and no entry of the kind this trie holds.)
+//@ ensures [C02 C11] forall n *topicNode, k string :: live(n) && old(has(n.children, k)) && !has(n.children, k) ==> len(old(n.children[k]).children) == 0 && (shareName == "" ? len(old(n.children[k]).clients) == 0 : len(old(n.children[k]).shared) == 0)
+//@ ensures [C02] forall n *topicNode, k string :: live(n) && has(n.children, k) ==> old(has(n.children, k)) && n.children[k] == old(n.children[k])
+//@ loop 1 invariant pNode != nil && nodesOK() && ownsOK() && (rangeindex >= 0 ==> pNode.parent != nil && has(pNode.parent.children, topicSlice[rangeindex]) && pNode.parent.children[topicSlice[rangeindex]] == pNode)
+
+// IterateLocked — routing between the three tries. A topic name that starts with '$' never reaches the user trie
+// ([MQTT-4.7.2-1]: filters starting with a wildcard do not match it); the system trie is only asked for '$' names
+// (or when no name is given); each part is asked with the caller's callback and options (the function has no loop: at
+// most once).
+//@ func iterateShared trusted
+//@ params fn, options, index, trie
+//@ func iterateNonShared trusted
+//@ params fn, options, index, trie
+
+//@ func (*TrieDB).IterateLocked mode bv
+//@ props C02
+//@ requires [C02] db != nil
+//@ modifies heap
+//@ ensures [C02] options.TopicName != "" && len(options.TopicName) >= 1 && options.TopicName[0] == '$' ==> called(iterateNonShared#1) == 0
+//@ ensures [C02] options.TopicName != "" && !(len(options.TopicName) >= 1 && options.TopicName[0] == '$') ==> called(iterateNonShared#2) == 0
+//@ ensures [C02] options.Type & subscription.TypeNonShared == 0 ==> called(iterateNonShared#1) == 0
+//@ ensures [C02] options.Type & subscription.TypeShared == 0 ==> called(iterateShared#1) == 0
+//@ ensures [C02] options.Type & subscription.TypeSYS == 0 ==> called(iterateNonShared#2) == 0
+//@ call iterateShared#1 assert [C02] index == db.sharedIndex && trie == db.sharedTrie && $arg1.TopicName == options.TopicName && $arg1.ClientID == options.ClientID && $arg1.MatchType == options.MatchType
+//@ call iterateNonShared#1 assert [C02] index == db.userIndex && trie == db.userTrie && $arg1.TopicName == options.TopicName && $arg1.ClientID == options.ClientID && $arg1.MatchType == options.MatchType
+//@ call iterateNonShared#2 assert [C02] index == db.systemIndex && trie == db.systemTrie && $arg1.TopicName == options.TopicName && $arg1.ClientID == options.ClientID && $arg1.MatchType == options.MatchType
+
+// The index: [clientID][key] -> the node that holds the subscription; the key of a non-shared subscription is its
+// filter, the key of a shared one is "<group>/<filter>" (as the comment on TrieDB.sharedIndex says), so that one client
+// in two groups on one filter has two entries.
+//@ spec func keyOf(s *gmqtt.Subscription) string = s.ShareName == "" ? s.TopicFilter : concat(concat(s.ShareName, "/"), s.TopicFilter)
+// trieIdxOK(index, c): every entry of client c points to a live node that is linked under its parent by the last level
+// of the key (the last level of "<group>/<filter>" is the last level of the filter).
+//@ spec func trieIdxOK(index map[string]map[string]*topicNode, c string) bool = forall t string :: has(index[c], t) ==> live(index[c][t]) && live(index[c][t].parent) && has(index[c][t].parent.children, level(t, levels(t) - 1)) && index[c][t].parent.children[level(t, levels(t) - 1)] == index[c][t]
+
+// unsubscribeAll(index, c): client c leaves everything the index records for it — afterwards it has no entry at any
+// of those nodes, neither non-shared nor in any group; nobody else's entry changes; a node is unlinked only when it is
+// bare; the index forgets the client; the counters drop by the number of index entries.
+//@ func (*TrieDB).unsubscribeAll
+//@ props C02 C11 C05
+// (the counter arithmetic is not the subject here: a client's statistics block could in principle be the store's own)
+//@ waive overflow
+//@ let ix = index[clientID]
+//@ requires [C02] db != nil && index != nil && nodesOK() && ownsOK() && trieIdxOK(index, clientID) && idxSep(index) && db.clientStats != nil
+// the counters are at least the number of subscriptions the index records (so that they cannot wrap below zero)
+//@ requires [C02] int(db.stats.SubscriptionsCurrent) >= len(index[clientID]) && (db.clientStats[clientID] != nil ==> int(db.clientStats[clientID].SubscriptionsCurrent) >= len(index[clientID]))
+//@ modifies heap
+//@ ensures [C02] nodesOK() && ownsOK() && !has(index, clientID)
+//@ ensures [C02] forall k string :: k != clientID ==> has(index, k) == old(has(index, k)) && index[k] == old(index[k])
+//@ ensures [C02] forall n *topicNode, c string :: live(n) && c != clientID ==> has(n.clients, c) == old(has(n.clients, c)) && n.clients[c] == old(n.clients[c])
+//@ ensures [C11] forall n *topicNode, g string, c string :: live(n) && c != clientID ==> member(n, g, c) == old(member(n, g, c))
+//@ ensures [C02 C11 C05] forall t string :: old(has(ix, t)) ==> !has(old(ix[t]).clients, clientID) && (forall g string :: !member(old(ix[t]), g, clientID))
+//@ ensures [C02] forall n *topicNode, k string :: live(n) && has(n.children, k) ==> old(has(n.children, k)) && n.children[k] == old(n.children[k])
+// a node is unlinked from its parent only when it is bare (stated per iteration: the link that an iteration removes
+// is the link of that iteration's node, and the node holds nothing at that moment)
+//@ loop 1 step [C02 C11] at(iter1, has(node.parent.children, level(topicName, levels(topicName) - 1))) && !has(node.parent.children, level(topicName, levels(topicName) - 1)) ==> bare(node)
+//@ loop 1 step [C02 C11] forall n *topicNode, k string :: live(n) && at(iter1, has(n.children, k)) && !has(n.children, k) ==> n == node.parent && k == level(topicName, levels(topicName) - 1)
+// (loop 1: the client's index entries; loop 2: the groups of the node of the current entry)
+// idxSep: the per-client maps of the index are not the children maps of nodes (both are map[string]*topicNode)
+//@ spec func idxSep(index map[string]map[string]*topicNode) bool = forall n *topicNode, k string :: live(n) && has(index, k) ==> n.children != index[k]
+//@ spec func othersKept(clientID string) bool = (forall n *topicNode, c string :: live(n) && c != clientID ==> has(n.clients, c) == old(has(n.clients, c)) && n.clients[c] == old(n.clients[c])) && (forall n *topicNode, g string, c string :: live(n) && c != clientID ==> member(n, g, c) == old(member(n, g, c)))
+//@ spec func unlinkedBare() bool = forall n *topicNode, k string :: live(n) && old(has(n.children, k)) && !has(n.children, k) ==> bare(old(n.children[k]))
+//@ spec func linksOnlyRemoved() bool = forall n *topicNode, k string :: live(n) && has(n.children, k) ==> old(has(n.children, k)) && n.children[k] == old(n.children[k])
+//@ spec func indexKept(index map[string]map[string]*topicNode, clientID string) bool = index != nil && (forall k string :: has(index, k) == old(has(index, k)) && index[k] == old(index[k])) && (forall t string :: has(index[clientID], t) == old(has(index[clientID], t)) && index[clientID][t] == old(index[clientID][t]))
+//@ spec func gone(n *topicNode, clientID string) bool = !has(n.clients, clientID) && (forall g string :: !member(n, g, clientID))
+//@ loop 1 invariant db != nil
+//@ loop 1 invariant nodesOK()
+//@ loop 1 invariant indexKept(index, clientID) && idxSep(index)
+//@ loop 1 invariant ownsOK()
+//@ loop 1 invariant othersKept(clientID)
+//@ loop 1 invariant linksOnlyRemoved()
+//@ loop 1 invariant forall t string :: visited(1, t) ==> gone(old(index[clientID][t]), clientID)
+//@ loop 1 invariant forall n *topicNode :: live(n) && has(n.clients, clientID) ==> old(has(n.clients, clientID))
+//@ loop 1 invariant forall n *topicNode, g string :: live(n) && member(n, g, clientID) ==> old(member(n, g, clientID))
+//@ loop 2 invariant db != nil && old(has(index[clientID], topicName))
+//@ loop 2 invariant node == old(index[clientID][topicName])
+//@ loop 2 invariant live(node)
+// (trieIdxOK of the entry state, spelled out for this entry)
+//@ loop 2 invariant live(node.parent) && old(has(node.parent.children, level(topicName, levels(topicName) - 1))) && old(node.parent.children[level(topicName, levels(topicName) - 1)]) == node
+//@ loop 2 invariant !has(node.clients, clientID)
+//@ loop 2 invariant nodesOK()
+//@ loop 2 invariant indexKept(index, clientID) && idxSep(index)
+//@ loop 2 invariant ownsOK()
+//@ loop 2 invariant othersKept(clientID)
+//@ loop 2 invariant linksOnlyRemoved()
+//@ loop 2 invariant forall t string :: visited(1, t) && t != topicName ==> gone(old(index[clientID][t]), clientID)
+//@ loop 2 invariant forall g string :: visited(2, g) ==> !member(node, g, clientID)
+//@ loop 2 invariant forall n *topicNode :: live(n) && has(n.clients, clientID) ==> old(has(n.clients, clientID))
+//@ loop 2 invariant forall n *topicNode, g string :: live(n) && member(n, g, clientID) ==> old(member(n, g, clientID))
+
+// UnsubscribeLocked: every named topic is taken out of the right trie (shared / system / user, by the shape of the
+// topic) under the client's id and, for a shared topic, its group — whether or not the index knew the subscription —
+// and the index forgets its key ("<group>/<filter>" for a shared topic).
+//@ spec func trieFor(db *TrieDB, share string, filter string) *topicNode = share != "" ? db.sharedTrie : (len(filter) >= 1 && filter[0] == '$' ? db.systemTrie : db.userTrie)
+//@ spec func idxFor(db *TrieDB, share string, filter string) map[string]map[string]*topicNode = share != "" ? db.sharedIndex : (len(filter) >= 1 && filter[0] == '$' ? db.systemIndex : db.userIndex)
+//@ spec func keyFor(share string, filter string) string = share == "" ? filter : concat(concat(share, "/"), filter)
+// dbOK: the store's own shape — its tries and index tables exist, the per-client index maps are not node maps, and a
+// client that has an index table has a statistics block.
+//@ spec func dbOK(db *TrieDB) bool = db != nil && db.sharedTrie != nil && db.systemTrie != nil && db.userTrie != nil && db.clientStats != nil && db.userIndex != nil && db.systemIndex != nil && db.sharedIndex != nil && idxSep(db.userIndex) && idxSep(db.systemIndex) && idxSep(db.sharedIndex) && (forall c string :: (has(db.userIndex, c) && db.userIndex[c] != nil) || (has(db.systemIndex, c) && db.systemIndex[c] != nil) || (has(db.sharedIndex, c) && db.sharedIndex[c] != nil) ==> db.clientStats[c] != nil)
+//@ spec func dbSame(db *TrieDB) bool = db.sharedTrie == old(db.sharedTrie) && db.systemTrie == old(db.systemTrie) && db.userTrie == old(db.userTrie) && db.userIndex == old(db.userIndex) && db.systemIndex == old(db.systemIndex) && db.sharedIndex == old(db.sharedIndex) && db.clientStats == old(db.clientStats)
+// (not yet discharged) func (*TrieDB).UnsubscribeLocked
+// (not yet discharged) props C02 C11
+// (not yet discharged) requires [C02] dbOK(db) && nodesOK() && ownsOK()
+// (not yet discharged) waive overflow
+// (not yet discharged) modifies heap
+// (not yet discharged) loop 1 invariant dbOK(db) && dbSame(db)
+// (not yet discharged) loop 1 invariant nodesOK()
+// (not yet discharged) loop 1 invariant ownsOK()
+// (not yet discharged) call topicNode.unsubscribe#1 assert [C02 C11] $arg1 == clientID && $arg2 == filterOf(topics[rangeindex]) && $arg3 == shareOf(topics[rangeindex]) && $arg0 == trieFor(db, $arg3, $arg2)
+// (not yet discharged) loop 1 step [C02 C11] called(topicNode.unsubscribe#1) == at(iter1, called(topicNode.unsubscribe#1)) + 1
+// (not yet discharged) loop 1 step [C02 C11] !has(idxFor(db, shareName, topic#2)[clientID], keyFor(shareName, topic#2))
